@@ -230,6 +230,8 @@ pub struct Named {
     pub added: Vec<String>,
     pub removed: Vec<String>,
     pub data_change: bool,
+    /// `update_group_data`: the fields the call named (empty = not tracked)
+    pub data_fields: Vec<String>,
     /// members whose own leave request this (auto-)commit carries out
     pub leave_of: Vec<String>,
     pub proposes_remove: Vec<String>,
@@ -1481,6 +1483,22 @@ impl World {
                         what = format!("toggle-admin-{}", crate::fingerprint::sh(&target, 6));
                     }
                 }
+                let mut data_fields: Vec<String> = vec![];
+                for (name, named) in [
+                    ("name", upd.name.is_some()),
+                    ("description", upd.description.is_some()),
+                    ("relays", upd.relays.is_some()),
+                    ("admins", upd.admins.is_some()),
+                    ("nostr_group_id", upd.nostr_group_id.is_some()),
+                    ("image_hash", upd.image_hash.is_some()),
+                    ("image_key", upd.image_key.is_some()),
+                    ("image_nonce", upd.image_nonce.is_some()),
+                    ("image_upload_key", upd.image_upload_key.is_some()),
+                ] {
+                    if named {
+                        data_fields.push(name.to_string());
+                    }
+                }
                 self.set_ts(*ts);
                 let r = on_mdk!(self.clients[m].mdk(), mm => mm.update_group_data(&gid, upd));
                 mdk_core::verif::set_wrapper_created_at(None);
@@ -1496,6 +1514,7 @@ impl World {
                         );
                         self.relay[idx].named = Named {
                             data_change: true,
+                            data_fields,
                             ..Named::default()
                         };
                         self.count("op:update_group_data");
@@ -2214,7 +2233,7 @@ impl World {
             }
             _ => Keys::generate().public_key(),
         };
-        let canary = format!("forged-{}-{}", self.step, m);
+        let mut canary = format!("forged-{}-{}", self.step, m);
         // (kind / 3 picks the rumor's own timestamp: ordinary, 0, just beyond i64::MAX, u64::MAX)
         let rumor_ts = match (kind / 3) % 4 {
             0 => self.t0 + 100 + (kind % 3) as u64,
@@ -2246,6 +2265,15 @@ impl World {
                 let Some(c) = pick(sel, cands.len()) else { return };
                 rumor.id = self.relay[cands[c]].rumor.as_ref().and_then(|r| r.id);
                 collides_with = Some(cands[c]);
+                if k == 2 && kind % 2 == 1 {
+                    // not only the id: a byte-identical copy of the other author's rumor, encrypted
+                    // from the forger's own leaf
+                    if let Some(orig) = self.relay[cands[c]].rumor.clone() {
+                        canary = orig.content.clone();
+                        rumor = orig;
+                        self.count("rogue:msg:exact-copy-of-a-foreign-rumor");
+                    }
+                }
             }
         }
         let base = self.clients[m].cur.clone();
@@ -2333,6 +2361,39 @@ impl World {
                 return Err(Failure::new(
                     "reopen-failed",
                     format!("client {m}: reopening the database failed: {e}"),
+                ));
+            }
+        }
+        // a storage call that is refused before a restart is refused after it as well: a message
+        // for a group the store does not know (the reopened connection must enforce the same
+        // integrity rules as the one that created the file)
+        {
+            use mdk_storage_traits::messages::MessageStorage;
+            use openmls_traits::OpenMlsProvider;
+            let pk = self.clients[m].keys.public_key();
+            let ts = nostr::Timestamp::from_secs(self.t0);
+            let id = nostr::EventId::from_byte_array([0xF0; 32]);
+            let mut ev = UnsignedEvent::new(pk, ts, Kind::Custom(9), vec![], "orphan".to_string());
+            ev.id = Some(id);
+            let orphan = mdk_storage_traits::messages::types::Message {
+                id,
+                pubkey: pk,
+                kind: Kind::Custom(9),
+                mls_group_id: GroupId::from_slice(&[0xFE, 0xED, 0xFA, 0xCE]),
+                created_at: ts,
+                processed_at: ts,
+                content: "orphan".to_string(),
+                tags: nostr::Tags::new(),
+                event: ev,
+                wrapper_event_id: nostr::EventId::from_byte_array([0xF1; 32]),
+                epoch: Some(0),
+                state: mdk_storage_traits::messages::types::MessageState::Processed,
+            };
+            let accepted = on_mdk!(self.clients[m].mdk(), mm => mm.provider.storage().save_message(orphan)).is_ok();
+            if accepted {
+                return Err(Failure::new(
+                    "restart-changed-observable-state",
+                    format!("c{m}: after reopening the database the store accepts a message for a group it does not hold; the connection that created the file refuses it"),
                 ));
             }
         }
